@@ -13,6 +13,7 @@
 (***************************************************************************)
 EXTENDS Pratt, TLC, Json, FiniteSets
 CONSTANTS K, Levels, MaxLen, Shard, NShards, Mode    \* Mode = "macro": only the table of the pratt_precedence! instance (K = 4)
+                                                     \* Mode = "dup": K rules in K + 1 registrations (one rule registered twice)
 VARIABLES c
 
 Affixes == <<"pre", "post", "inl", "inr">>
@@ -28,8 +29,17 @@ Seqs(n) == IF n = 0 THEN {<<>>} ELSE {<<>>} \cup { <<x>> \o s : x \in 0..K, s \i
 
 RECURSIVE TH(_)
 TH(s) == IF s = <<>> THEN 3 ELSE (7 * TH(Tail(s)) + s[1]) % 101
-Cases == { cs \in Tables \X Seqs(MaxLen) :
-             WellFormed(cs[1], cs[2]) /\ (TH(cs[2]) + Code(cs[1][1])) % NShards = Shard }
+\* registration sequences in which one rule appears twice (levels in non-decreasing order, as op() calls come)
+DupEntries == [rule : 1..K, affix : {"pre", "post", "inl", "inr"}, lvl : 1..Levels]
+\* (operators with a parameter: TLC evaluates parameterless constant definitions at start-up, whatever the Mode)
+Regs(k) == { R \in [1..(k + 1) -> DupEntries] : /\ \A i \in 1..K : R[i].lvl <= R[i + 1].lvl
+                                             /\ \A r \in 1..K : \E i \in 1..(K + 1) : R[i].rule = r }
+DupCases(k) == { <<Registered(x[1], k), x[2], x[1]>> :
+                x \in { y \in Regs(k) \X Seqs(MaxLen) : /\ WellFormed(Registered(y[1], K), y[2])
+                                                      /\ (TH(y[2]) + Code(y[1][1]) + y[1][K + 1].rule) % NShards = Shard } }
+Cases == IF Mode = "dup" THEN DupCases(K)
+         ELSE { cs \in Tables \X Seqs(MaxLen) :
+                  WellFormed(cs[1], cs[2]) /\ (TH(cs[2]) + Code(cs[1][1])) % NShards = Shard }
 
 Init == c \in Cases
 Next == UNCHANGED c
@@ -40,5 +50,7 @@ toks == c[2]
 PrattIsShuntingYard == PrattTree(Tb, toks) = ShuntingYard(Tb, toks)
 UsesEachTokenOnceInOrder == OncePreservingOrder(ShuntingYard(Tb, toks), Len(toks))
 ClimberIsShuntingYard == ClimberTable(Tb) => ClimbTree(Tb, toks) = ShuntingYard(Tb, toks)
-Emit == PrintT(ToJson([table |-> Tb, toks |-> toks, tree |-> ShuntingYard(Tb, toks), climber |-> ClimberTable(Tb)]))
+Emit == IF Mode = "dup"
+        THEN PrintT(ToJson([regs |-> c[3], table |-> Tb, toks |-> toks, tree |-> ShuntingYard(Tb, toks), climber |-> FALSE]))
+        ELSE PrintT(ToJson([table |-> Tb, toks |-> toks, tree |-> ShuntingYard(Tb, toks), climber |-> ClimberTable(Tb)]))
 ===============================================================================
